@@ -13,7 +13,7 @@ func TestC18(t *testing.T) {
 	completed := false
 	defer func() { rec.Flush(completed) }()
 	FilterKnown = true
-	kinds := []string{LOpen, LOpen, LOpen, LOpenRO, LOpenRO, LOpenWait, LOpenWait, LClose, LClose, LTx, LBadOptions, LBadResize, LDamageBoth, LShortFile, LEmptyHeader}
+	kinds := []string{LOpen, LOpen, LOpen, LOpenRO, LOpenRO, LOpenWait, LOpenWait, LClose, LClose, LTx, LBadOptions, LBadResize, LBadCreate, LDamageBoth, LShortFile, LEmptyHeader}
 	rapid.Check(t, func(rt *rapid.T) {
 		p := &LockSeq{PageSize: rapid.SampledFrom([]uint32{1024, 4096}).Draw(rt, "ps")}
 		if rapid.IntRange(0, 1).Draw(rt, "bounded") == 1 {
